@@ -40,6 +40,7 @@ type Prog struct {
 	reqReach      map[*ssa.Function]bool
 	globStores    map[*ssa.Global][]ssa.Value
 	escCache      map[*types.Named]bool
+	subCache      map[string]*Result
 	leaderCbs     map[string][]*ssa.Function
 	batchCache    []*batchModel
 	lockCache     *lockCtx
@@ -736,4 +737,20 @@ func (p *Prog) globalStores(g *ssa.Global) []ssa.Value {
 		}
 	}
 	return p.globStores[g]
+}
+
+
+// subResult evaluates the rules of another property once per run (rules imported by several properties, and by
+// imports of imports, would otherwise be recomputed many times).
+func (p *Prog) subResult(id, tier string) *Result {
+	if p.subCache == nil {
+		p.subCache = map[string]*Result{}
+	}
+	if r, ok := p.subCache[id]; ok {
+		return r
+	}
+	r := newResult(id)
+	registry[id](p, r, tier)
+	p.subCache[id] = r
+	return r
 }
